@@ -27,7 +27,7 @@ ATOL = 1e-11
 KTOL = 1e-12
 RULE = ('every factory of the property (line, polygon, n_gon, circle p2C0/p4C1, ellipse, circle_segment, '
         'circle_segment_from_three_points, square, cube, disc radial/square, sphere, cylinder, torus, solid '
-        'sphere/cylinder/torus, revolve/extrude of random curves and surfaces, rotate_local_x_axis, '
+        'sphere (radial and square)/cylinder/torus, revolve/extrude of random curves and surfaces, rotate_local_x_axis, '
         'flip_and_move_plane_geometry); radii/heights/centres random dyadic; normals/axes: +-coordinate axes, '
         'every octant, non-unit, rational-norm (exact stream) and arbitrary floats; x-axes orthogonal to the normal; '
         'angles in [-2pi,2pi] incl. the span-count thresholds and +-2pi; both circle types; non-collinear triples '
@@ -358,7 +358,7 @@ def generate(rng, tier):
         S.append(placed(rng, {'op': 'torus', 'r1': r1, 'r2': r1 * rng.choice([2, 3, 1.5, 4.25])}))
     for _ in range(rep(10, 60)):
         S.append({'op': 'sphere_vol', 'r': gen_radius(rng), 'center': gen_center(rng), 'type': 'radial', 'stream': 'float'})
-    for _ in range(rep(3, 20)):
+    for _ in range(rep(6, 40)):
         S.append({'op': 'sphere_vol', 'r': gen_radius(rng), 'center': gen_center(rng), 'type': 'square', 'stream': 'float'})
     for _ in range(rep(20, 200)):
         r1 = gen_radius(rng)
@@ -537,7 +537,7 @@ def model_line(s):
         return line('f_torus', CONSTS, s['r1'], s['r2'], s['center'], s['normal'], s['xaxis'], a, lam)
     if op == 'sphere_vol':
         if s['type'] != 'radial':
-            return line('f_noop', 0)
+            return line('f_sphere_vol_sq', [S2_F, F(sqrt(3)), F(sqrt(6))], s['r'], s['center'])
         return line('f_sphere_vol', CONSTS, s['r'], s['center'])
     if op == 'torus_vol':
         a, lam = placement(s)
@@ -565,8 +565,6 @@ def model_line(s):
 def compare(s, iv, mv):
     from vlib.compare import diff, Err
     from vlib.val import is_err
-    if s['op'] == 'sphere_vol' and s.get('type') == 'square':
-        return None     # literal Cobb net: not modelled, oracle only
     if isinstance(iv, Err) or is_err(mv) or s['op'] == 'local_x':
         return diff(iv, mv, RTOL, 1e-9)
     if not (isinstance(mv, list) and len(mv) == 4):
